@@ -13,6 +13,7 @@ type Case = play.History
 func Run(c Case) core.Result {
 	res := core.Result{}
 	multi, errAfterRows, failedRow, afterDone, blank, perr, zero := false, false, false, false, false, false, false
+	srvClose := false
 	for _, m := range c.Msgs {
 		if model.IsBlank(m.Query) {
 			blank = true
@@ -34,6 +35,8 @@ func Run(c Case) core.Result {
 			rows, done := 0, false
 			for _, op := range st.Ops {
 				switch op.K {
+				case "closesrv":
+					srvClose = true
 				case "row":
 					bad := len(op.Vals) != len(st.Cols)
 					for _, v := range op.Vals {
@@ -74,6 +77,7 @@ func Run(c Case) core.Result {
 	add(perr, "parser-error")
 	add(zero, "zero-statements")
 	add(c.TLS, "inside-tls")
+	add(srvClose, "server-close-during-query")
 	res.NonTrivial = multi || errAfterRows || failedRow || afterDone
 
 	o := play.Run(c, play.Options{Prefix: "C05"})
